@@ -374,7 +374,7 @@ fn main() {
             }
         }
     }
-    let nr = ctx.budget(300, 6000);
+    let nr = ctx.budget(1500, 30000);
     for _ in 0..nr {
         if let Some(mut rng) = ctx.random_case() {
             let len = rng.range_usize(0, 60);
